@@ -148,7 +148,7 @@ def h_switch(eng, first=None, second=None):
 
 
 EDITS = ["modify_same_size", "modify_other_size", "chmod", "delete", "add_untracked", "to_symlink", "stage", "unstage", "rm_cached",
-         "to_directory", "add_all", "stage_direct"]
+         "to_directory", "add_all", "stage_direct", "restore_by_hand", "reset_hard"]
 
 
 def h_edits(eng, e1=0):
@@ -165,6 +165,11 @@ def h_edits(eng, e1=0):
         porcelain.reset(r, "hard", cid)
         head = _expect_disk(L)
         seq = [EDITS[e1], EDITS[eng.choice("edit2", len(EDITS))]] if eng.bool("two_edits") else [EDITS[e1]]
+        # optional fixed suffix: the user puts the committed file back by hand, and / or runs reset --hard
+        if eng.bool("then_restore_by_hand"):
+            seq.append("restore_by_hand")
+        if eng.bool("then_reset_hard"):
+            seq.append("reset_hard")
         target = [b"f", b"d/g", b"n\xff\xfe"][eng.choice("target", 3)]
         full = os.path.join(os.fsencode(d), target)
         for ed in seq:
@@ -218,6 +223,28 @@ def h_edits(eng, e1=0):
                 porcelain.add(r)
             elif ed == "stage_direct":
                 r.get_worktree().stage([os.fsdecode(target)])
+            elif ed == "restore_by_hand":
+                # put the committed content and mode back without telling git (the index may still hold something else)
+                if os.path.isdir(full) and not os.path.islink(full):
+                    shutil.rmtree(full)
+                elif os.path.lexists(full):
+                    os.remove(full)
+                mode_, data_ = head[target]
+                if mode_ == 0o120000:
+                    os.symlink(data_, full)
+                else:
+                    os.makedirs(os.path.dirname(full), exist_ok=True)
+                    with open(full, "wb") as fh:
+                        fh.write(data_)
+                    os.chmod(full, 0o755 if mode_ == 0o100755 else 0o644)
+                _touch(full)
+            elif ed == "reset_hard":
+                try:
+                    porcelain.reset(r, "hard", cid)
+                except OSError:
+                    # dulwich refuses to delete a non-empty untracked directory that is in the way (git deletes it); a
+                    # refusal is not what this check is about
+                    eng.assume(False)
             elif ed == "stage":
                 if not os.path.lexists(full):
                     eng.assume(False)
@@ -243,6 +270,11 @@ def h_edits(eng, e1=0):
         want_untracked = sorted(p for p in disk if p not in index)
         got = _status(r)
         tag = f"[edits={seq} on {target!r}, d/g kind={L[b'd/g']}]"
+        if seq[-1] == "reset_hard":
+            eng.prove({p_: v_ for p_, v_ in disk.items() if p_ != b"new.txt" and not p_.startswith(target + b"/")} == head or disk == head,
+                      f"{tag} after reset --hard the work tree equals HEAD (disk {sorted(disk)})")
+            eng.prove(index == head, f"{tag} after reset --hard the index equals HEAD "
+                                     f"(differs on {[p_ for p_ in set(index) | set(head) if index.get(p_) != head.get(p_)]})")
         if seq[-1] == "stage_direct":
             eng.prove(index.get(target) == disk.get(target),
                       f"{tag} staging a path makes its index entry equal the work tree (index {index.get(target) and index.get(target)[0]}, "
@@ -273,7 +305,9 @@ def checks(tier):
                outside="dirty work trees before the switch", tiers=q),
         KCheck("C18c.status_after_edits", h_edits, parts=[{"e1": k} for k in range(len(EDITS))], encoded=enc,
                bounds="HEAD = {f, d/g (file, executable or symlink), a non-UTF-8 name}; one or two edits on one target path from {modify same size, "
-                      "modify other size, chmod, delete, add untracked, replace by symlink, stage, unstage, rm --cached}; every "
+                      "modify other size, chmod, delete, add untracked, replace by symlink or directory, stage, stage directly, add all, unstage, rm --cached, "
+                      "restore by hand, reset --hard}, optionally followed by restoring the committed file by hand and / or reset --hard "
+                      "(after which index and work tree must equal HEAD); every "
                       "edit gets a distinct timestamp",
                outside="racy timestamps (excluded by assumption); agreement with git status beyond "
                        "the reference three-way comparison", tiers=q),
